@@ -254,12 +254,92 @@ def st_http(work):
     return _verdict("QtlHttp", not rej, [("a request body one byte short", bool(r2)), ("one message posted twice", bool(r3))])
 
 
+def _spy_campaign(fn):
+    class Keep:
+        runs = None
+    orig = C.validate_runs
+
+    def spy(spec, cfg, runs, w, tag, **kw):
+        Keep.runs = runs
+        return orig(spec, cfg, runs, w, tag, **kw)
+    C.validate_runs = spy
+    try:
+        res = fn()
+    finally:
+        C.validate_runs = orig
+    return res, Keep.runs, orig
+
+
+def st_env(work):
+    from . import env_spec as E
+    bdir = C.ensure_harness("asan", ["drv_env"])
+    (acc, rej, info), runs, orig = _spy_campaign(lambda: E.attrs_campaign(bdir, random.Random(11), 25, work / "env"))
+    # 1. a handler built after a restart shows a UUID never seen before although the settings still hold the old one
+    bad = copy.deepcopy(runs)
+    done = False
+    for r in bad:
+        seen = 0
+        for e in r:
+            if e.get("op") == "uuid":
+                if e["u"] <= seen and not done:
+                    e["u"] = seen + 1
+                    done = True
+                    break
+                seen = max(seen, e["u"])
+        if done:
+            break
+    _, r1 = orig("Trace_Env", "Trace_Env.cfg", bad, work / "env", "st_bad1", chunk=60)
+    # 2. an AppInfoAttrs handler follows a later rename of the application
+    bad2 = copy.deepcopy(runs)
+    done = False
+    for r in bad2:
+        for e in r:
+            if e.get("op") == "msg" and len(e.get("attrs", [])) == 5:
+                e["attrs"][1][1] = e["attrs"][1][1] + "x"
+                done = True
+                break
+        if done:
+            break
+    _, r2 = orig("Trace_Env", "Trace_Env.cfg", bad2, work / "env", "st_bad2", chunk=60)
+    ok1 = _verdict("QtlEnv", not rej, [("a stored UUID replaced by a new one", bool(r1)) if any(
+        e.get("op") == "uuid" for r in bad for e in r) else ("(no repeated UUID in the sample)", True),
+        ("an application name that is not the snapshot", bool(r2))])
+    (acc, rej, info), runs, orig = _spy_campaign(lambda: E.sinks_campaign(bdir, random.Random(12), 40, work / "env"))
+    cfg = "Trace_LineSinks_keeps.cfg" if info["ident_pointer"] == "kept" else "Trace_LineSinks.cfg"
+    bad = copy.deepcopy(runs)
+    done = False
+    for r in bad:
+        for e in r:
+            if e.get("op") == "sendio" and e["devs"] and any(d[1] for d in e["devs"]):
+                d = next(d for d in e["devs"] if d[1])
+                d[1] = d[1][:-1]                                  # the device lacks the final newline
+                done = True
+                break
+        if done:
+            break
+    _, r3 = orig("Trace_LineSinks", cfg, bad, work / "env", "st_bad3", chunk=60)
+    bad2 = copy.deepcopy(runs)
+    done = False
+    for r in bad2:
+        for e in r:
+            if e.get("op") == "sendsys" and e["calls"] and e["m"]["type"] == 1:
+                e["calls"][0]["prio"] = 3                          # a warning handed over as LOG_ERR
+                done = True
+                break
+        if done:
+            break
+    _, r4 = orig("Trace_LineSinks", cfg, bad2, work / "env", "st_bad4", chunk=60)
+    ok2 = _verdict("QtlLineSinks", not rej, [("a device one newline short", bool(r3)),
+                                             ("a warning with the priority of an error", bool(r4) or not done)])
+    return ok1 and ok2
+
+
 def run(argv):
     work = C.BUILD / "work" / "selftest"
     work.mkdir(parents=True, exist_ok=True)
     ok = True
     try:
-        for fn in (st_sorted, st_pipeline, st_rotation, st_threads, st_pattern, st_json, st_config, st_signal, st_http):
+        for fn in (st_sorted, st_pipeline, st_rotation, st_threads, st_pattern, st_json, st_config, st_signal, st_http, st_env):
             ok = fn(work) and ok
     except C.ToolFailure as e:
         print("SELFTEST TOOL FAILURE:", e, file=sys.stderr)
